@@ -10,7 +10,9 @@ ID = "C02"
 REACH_TARGETS = [('cpp.BasicBlock.compile', 'formak.cpp:BasicBlock.compile'), ('cpp.EKF._translate_control_covariance', 'formak.cpp:ExtendedKalmanFilter._translate_control_covariance'), ('cpp.EKF.reading_types', 'formak.cpp:ExtendedKalmanFilter.reading_types')]
 LEVEL = "exploration"
 RULE = ("random definitions with identifier-safe names in all four control x calibration presence combinations, "
-        "0-3 sensors x 1-4 readings, both CSE settings, EKF generator (every unit) and Model generator (every "
+        "0-3 sensors x 1-4 readings (later sensors reuse reading names; an eighth of the programs 6-9 states with "
+        "5-7 reading sensors; noise 1e-10..1e4 incl. Fraction/Rational values; case-sibling names), both CSE "
+        "settings, compiled constants read back (CFG), angle-wrap value units, EKF generator (every unit) and Model generator (every "
         "third unit); header+source from the real generator are compiled with g++/clang++ under ASan+UBSan "
         "against the Eigen stand-in and driven through named Options fields / accessors at 4 points: "
         "ProcessModel::model, process_jacobian, control_jacobian, covariance, <Reading>SensorModel::model, "
